@@ -47,6 +47,9 @@ OPS = [
     ("some-to-none", r"= Some\(([a-z_][\w.]*)\);", r"= None;"),
     ("unwrap-or-default", r"\.unwrap_or\(true\)", ".unwrap_or(false)"), ("unwrap-or-default2", r"\.unwrap_or\(false\)", ".unwrap_or(true)"),
     ("lt-le", r" < (?=[a-z0-9])", " <= "), ("gt-ge", r" > (?=[a-z0-9])", " >= "),
+    # fifth generation: rejections and filters removed
+    ("del-bail", r"^[ \t]+bail!\((?:[^;]|\n)*?\);\n", ""), ("drop-filter", r"\.filter\(\|[a-z_&]+\| [^()\n]*(?:\([^()\n]*\)[^()\n]*)*\)", ""),
+    ("and-then-none", r"\.is_some\(\) &&", ".is_none() &&"), ("question-unwrap-default", r"\.unwrap_or_default\(\)", ".unwrap()"),
 ]
 
 def sites():
